@@ -14,26 +14,26 @@ BASELINE = ("cd /repo && /venv/bin/python -m pytest -ra -q -p no:cacheprovider -
             "--continue-on-collection-errors")
 
 TECH = {
-    'C01': "static analysis: work-list invariants by CFG must-use / must-pass-through / dominance, ownership tables, AST truth table for Not",
-    'C02': "static analysis: CFG x automaton path-language inclusion (typestate), reaching definitions, ownership tables",
-    'C03': "static analysis: typestate (action-order language) on the CFG of FSM._ctx_event, effect-freedom of rejecting exits, reaching definitions",
-    'C04': "static analysis: ownership of the timer handle, must-pass-through cancel on exit/stop, branch-effect classification of the duration case split",
+    'C01': "static analysis: work-list invariants by CFG must-use / must-pass-through / dominance, ownership tables, AST truth table for Not; abstract interpretation (AST interpreter over a finite case grid) of SBlock.set_output and of the resolved And/Or/Xor/Override functions",
+    'C02': "static analysis: CFG x automaton path-language inclusion (typestate), reaching definitions, ownership tables; abstract interpretation of SBlock.set_output (27 cases) and Event.send (73 filter pipelines) against the documented trace",
+    'C03': "static analysis: typestate (action-order language) on the CFG of FSM._ctx_event, effect-freedom of rejecting exits, reaching definitions; abstract interpretation of FSM._ctx_event on 17 scenarios (recording stand-ins, re-entrant nested events) and of FSM._build_tables on 8 small tables",
+    'C04': "static analysis: ownership of the timer handle, must-pass-through cancel on exit/stop, branch-effect classification of the duration case split; abstract interpretation of FSM._ctx_event (timer stop/start order, per-event duration, no timer for a passed-through state)",
     'C05': "static analysis: typestate of the init-step protocol, dominance of guards, who-may-call tables, bounded-wait shape",
     'C06': "static analysis: save/restore protocol by must-pass-through under fault model M1, writer/reader table agreement, time-base unit typing, timer-handle clearing before delivery",
-    'C07': "static analysis: non-emptiness domain for partial operations on the alarm registry, must-call registry protocol",
+    'C07': "static analysis: non-emptiness domain for partial operations on the alarm registry, must-call registry protocol; abstract interpretation of interval membership (__contains__, 589 cases per class), of the scheduler's add/remove registry (all call sequences up to length 3) and of the clock-jump guard on impossible delays",
     'C08': "static analysis: CFG with exceptional and cancellation edges (M1/M1c), linear task ownership (must-use), who-may-call, super-chain, docs<->code",
     'C09': "static analysis: write-once ownership with dominance, no-swallow handler classification against a frozen sink table",
-    'C10': "static analysis: loop-cycle must-pass-through (counter/limit), dominance of resets by the idle point, constant folding",
-    'C11': "static analysis: acquire/release pairing on all exits under the any-statement-may-raise fault model M2, ownership and who-may-lift tables, no-swallow table over the may-deliver call closure",
+    'C10': "static analysis: loop-cycle must-pass-through (counter/limit), dominance of resets by the idle point, constant folding; multi-site removed=>evaluated rule shared with C01; abstract interpretation of SBlock.set_output for 'queued before any delivery'",
+    'C11': "static analysis: acquire/release pairing on all exits under the any-statement-may-raise fault model M2, ownership and who-may-lift tables, no-swallow table over the may-deliver call closure; abstract interpretation of FSM._ctx_event for the guard flag on every exit and the recursion window",
     'C12': "static analysis: linear use of dequeued items (at least once and at most once, pruned path search), outcome-arm classification, counter pairing under M2, mode-shape rules",
-    'C13': "static analysis: finite abstract evaluation over the 13 weak orderings (exhaustive), literal-table agreement",
-    'C14': "static analysis: dominance of the is_ready gate, two-point string-prefix dataflow domain, who-may-pass _reserved",
+    'C13': "static analysis: finite abstract evaluation over the 13 weak orderings (exhaustive), literal-table agreement; abstract interpretation of __contains__ per concrete class (one and two ranges), fresh-list rule for the exporters",
+    'C14': "static analysis: dominance of the is_ready gate, two-point string-prefix dataflow domain, who-may-pass _reserved; abstract interpretation of Event.send (source item), CFG rule 'recorded task implies recorded error at every exit' under M1, result-passing rule for event() wrappers",
     'C15': "static analysis: dominance and order of resolve/connect before the freeze flag, who-must-call gate, literal<->attribute agreement of the resolver, finite abstract evaluation of the signature comparison",
-    'C16': "static analysis: typestate of the filter pipeline, finite abstract evaluation on the truthiness domain (Edge: 144 cases) and on the key-equality domain (DataEdit, incl. pairs of deliveries), docs<->code",
+    'C16': "static analysis: typestate of the filter pipeline, finite abstract evaluation on the truthiness domain (Edge: 144 cases) and on the key-equality domain (DataEdit, incl. pairs of deliveries), docs<->code; abstract interpretation of Event.send (73 pipelines) and of Edge with several representatives per truthiness class",
     'C17': "static analysis: reaching definitions (only validated values reach set_output / sdata), stage-order and effect-free rejection on the CFG",
     'C18': "static analysis: def-use agreement of output and repeat number, effect-free exits, keyword map of the implicit Repeat, key-absence dataflow for spread-plus-keyword calls",
-    'C19': "static analysis: regex AST <-> unit letter <-> scale tuple agreement, constant folding, branch classification, abstract evaluation of the fraction test over the pattern's separator class",
-    'C20': "static analysis: reaching definitions (every output passes the modulo reduction), handler return/operand table, signatures",
+    'C19': "static analysis: regex AST <-> unit letter <-> scale tuple agreement, constant folding, branch classification, abstract evaluation of the fraction test over the pattern's separator class; abstract interpretation of _convert as a whole with stand-ins for the compiled patterns (2 930 element combinations); repeat bounds of whitespace gaps in the regex AST",
+    'C20': "static analysis: reaching definitions (every output passes the modulo reduction), handler return/operand table, signatures; result-passing rule for the event() wrappers in Counter's MRO",
 }
 
 
